@@ -87,7 +87,7 @@ def _group_func(ctx: Ctx) -> Func:
     """Acl.group with statement-level list comprehensions written out as loops (same elements, same order)."""
     from .normalise import normalised
 
-    return normalised(ctx, ctx.func("Acl.group"), "valuecalls,decomp")
+    return normalised(ctx, ctx.func("Acl.group"), "multiret,valuecalls,decomp")
 
 
 def r15_1(ctx: Ctx, rep: Report) -> None:
@@ -281,11 +281,13 @@ def adoption_rule(ctx: Ctx, rep: Report, rid: Optional[str] = None) -> None:
 
     unit = per_item_unit(ctx, s)
     adopted = False
+    judged = False
     if unit is not None:
         uf, var, paths, _anchor, is_helper = unit
         for path in paths:
             atoms = [(n.ast, lab == "T") for n, lab in path if n.kind == "cond" and lab in ("T", "F")]
             if any("isinstance" in src(t) and "Ace" in src(t) and tr for t, tr in atoms):
+                judged = True
                 if is_helper:
                     # the helper hands the very object back
                     rets = [n.ast for n, _ in path if n.kind == "stmt" and isinstance(n.ast, ast.Return)]
@@ -296,6 +298,11 @@ def adoption_rule(ctx: Ctx, rep: Report, rid: Optional[str] = None) -> None:
                     if node.kind == "stmt" and node.ast is not None:
                         pl += element_placements(node.ast, var)
                 adopted = len(pl) == 1 and pl[0][0] == "append"
+    if not judged:
+        # no path of the per-item conversion is selected by `isinstance(item, <entry classes>)` (a table of converters picked
+        # by type, say): which statement handles a ready-made entry cannot be read off - not judged, never an alarm
+        rep.note("R15.2 AceGroup.items setter: no isinstance-selected path for ready-made entries found (dispatch through a table?) - adoption of the same objects not judged")
+        return
     if adopted:
         rep.ok("AceGroup.items setter", "adopts Ace/Remark objects as they are (same object appended): identifiers survive grouping", where=where(s))
     else:
@@ -865,7 +872,7 @@ def group_is_atomic(ctx: Ctx, rep: Report, rid: str = "R15.14") -> None:
     """Grouping either happens or leaves the ACL as it was: the object's state (_items, _group_by) is written after every
     block has been built - building a block can fail (a heading longer than a name may be)."""
     rep.rule(rid)
-    f = ctx.func("Acl.group")
+    f = _group_func(ctx)
     cfg = ctx.cfg(f)
     base = ctx.cls("Base")
     writes = []
